@@ -197,10 +197,10 @@ def unhex(s):
 
 
 def shape(line):
-    """root-cause key of a differing WAT line: the line with numbers and quoted data removed"""
-    s = re.sub(r'"[^"]*"', '"…"', line.strip())
-    s = re.sub(r"\d+", "N", s)
-    return s[:60] or "<empty>"
+    """root-cause class of a differing WAT line: the kind of module field it belongs to ("(import", "(func", "(data", "(global", …),
+    so that one cause (say an unsorted function loop) is one violation, not one per program"""
+    m = re.match(r"\s*(\(\s*[a-z_.0-9]+|[a-z_.0-9]+)", line)
+    return (m.group(1).replace(" ", "") if m else line.strip()[:20]) or "<empty>"
 
 
 def run(ctx):
